@@ -66,6 +66,9 @@ def random_structure(rng: random.Random, dtype=F32):
         return [S(2, 3, dtype=dtype), S(2, 3, dtype=dtype)]
     if k < 0.63:
         n = rng.choice([2, 3])
+        if rng.random() < 0.5:
+            # leaves of different rank, the one an axis operator leaves alone FIRST in flatten order
+            return {'a': S(n, dtype=dtype), 'b': S(n, 2, dtype=dtype)}
         return {'b': S(n, dtype=dtype), 'a': S(n, 2, dtype=dtype)}
     if k < 0.70:
         return (S(2, dtype=dtype), [S(2, dtype=dtype), S(2, dtype=dtype)])
@@ -358,7 +361,38 @@ def mk_broadcast_diag(rng, s):
     return BroadcastDiagonalOperator(vals, axis_destination=-1, in_structure=s)
 
 
-ENDO = [mk_identity, mk_homothety, mk_diagonal, mk_diagonal_first, mk_qurot, mk_hwp, mk_toeplitz]
+def mk_obs_matrix(rng, s):
+    """a Toast observation matrix: the class loads a SciPy CSR matrix from an .npz file (written here to a temporary
+    file that is removed as soon as the operator is built); square, NOT symmetric, some empty rows"""
+    if not is_single_array(s) or len(s.shape) != 1 or np.dtype(s.dtype).kind != 'f':
+        return None
+    import os
+    import tempfile
+    from furax.toast.obs_matrix import ToastObservationMatrixOperator
+    n = s.shape[0]
+    dense_m = np.array([[rng.choice([0, 0, 0, 1, -1, 2, 3, -2]) for _ in range(n)] for _ in range(n)], dtype=np.dtype(s.dtype))
+    if n > 1 and rng.random() < 0.3:
+        dense_m[rng.randrange(n), :] = 0
+    data, indices, indptr = [], [], [0]
+    for r in range(n):
+        for c in range(n):
+            if dense_m[r, c] != 0:
+                data.append(dense_m[r, c])
+                indices.append(c)
+        indptr.append(len(data))
+    fd, path = tempfile.mkstemp(suffix='.npz', prefix='furax-verif-obs-')
+    os.close(fd)
+    try:
+        fmt = rng.choice(['str', 'bytes'])
+        np.savez(path, format=np.array('csr' if fmt == 'str' else b'csr'), data=np.asarray(data, dtype=np.dtype(s.dtype)),
+                 indices=np.asarray(indices, dtype=np.int32), indptr=np.asarray(indptr, dtype=np.int32),
+                 shape=np.asarray([n, n]))
+        return ToastObservationMatrixOperator(path)
+    finally:
+        os.remove(path)
+
+
+ENDO = [mk_identity, mk_homothety, mk_diagonal, mk_diagonal_first, mk_qurot, mk_hwp, mk_toeplitz, mk_obs_matrix]
 CHANGERS = [mk_index, mk_moveaxis, mk_ravel, mk_reshape, mk_pack, mk_polarizer, mk_dense,
             mk_broadcast_diag]
 
@@ -723,7 +757,8 @@ def flatten_value(v) -> np.ndarray:
     leaves = jax.tree.leaves(v)
     if not leaves:
         return np.zeros(0)
-    return np.concatenate([np.asarray(l, dtype=np.float64).ravel() for l in leaves])
+    wide = np.complex128 if any(np.iscomplexobj(np.asarray(l)) for l in leaves) else np.float64
+    return np.concatenate([np.asarray(l).astype(wide).ravel() for l in leaves])
 
 
 def dense(op) -> np.ndarray:
@@ -736,9 +771,45 @@ def dense(op) -> np.ndarray:
 
 def random_input(rng: random.Random, structure, lo=-3, hi=4):
     leaves, treedef = jax.tree.flatten(structure)
-    vals = [jnp.asarray(np.array([rng.randint(lo, hi) for _ in range(int(np.prod(l.shape)))],
-                                 dtype=np.float64).reshape(l.shape), dtype=l.dtype) for l in leaves]
+    vals = []
+    for l in leaves:
+        a = np.array([rng.randint(lo, hi) for _ in range(int(np.prod(l.shape)))], dtype=np.float64).reshape(l.shape)
+        if np.dtype(l.dtype).kind == 'c':
+            a = a + 1j * np.array([rng.randint(lo, hi) for _ in range(int(np.prod(l.shape)))], dtype=np.float64).reshape(l.shape)
+        vals.append(jnp.asarray(a, dtype=l.dtype))
     return jax.tree.unflatten(treedef, vals)
+
+
+def complex_candidates(rng: random.Random):
+    """(label, operator) on complex64 leaves with parameters that have a NON-ZERO IMAGINARY PART: transposition is not
+    conjugation, and every dense form has to agree with the columns op(e_j) in complex arithmetic"""
+    C64 = jnp.complex64
+    n = rng.choice([2, 3])
+    s = S(n, dtype=C64)
+
+    def cvals(shape):
+        k = int(np.prod(shape))
+        re = np.array([rng.choice([1, 2, -1, 3, -2]) for _ in range(k)], dtype=np.float64)
+        im = np.array([rng.choice([1, -1, 2, -3, 0.5]) for _ in range(k)], dtype=np.float64)
+        return jnp.asarray((re + 1j * im).reshape(shape), dtype=C64)
+    d = DiagonalOperator(cvals((n,)), in_structure=s)
+    h = HomothetyOperator(jnp.asarray(complex(rng.choice([2, -1]), rng.choice([1, -3])), dtype=C64), s)
+    dn = DenseBlockDiagonalOperator(cvals((n, n)), s, 'ij...,j...->i...')
+    rect = DenseBlockDiagonalOperator(cvals((2, n)), s, 'ij...,j...->i...')
+    bd = BroadcastDiagonalOperator(cvals((2, n)), axis_destination=-1, in_structure=s)
+    from furax._base.core import TransposeOperator
+    out = [
+        ('complex-diagonal', d), ('complex-diagonal-inverse', d.I), ('complex-scalar', h), ('complex-scalar-times', (2 + 1j) * d),
+        ('complex-dense', dn), ('complex-dense-T', dn.T), ('complex-dense-rect-T', rect.T),
+        ('complex-broadcast-diagonal', bd), ('complex-broadcast-diagonal-T', bd.T),
+        ('complex-lazy-transpose', TransposeOperator(dn)), ('complex-lazy-transpose-T', TransposeOperator(dn).T),
+        ('complex-sum', d + dn), ('complex-sum-T', (d + dn).T), ('complex-sum-lazy-T', d + TransposeOperator(dn)),
+        ('complex-composition', d @ dn @ h), ('complex-composition-T', (d @ dn).T),
+        ('complex-composition-lazy-T', CompositionOperator([bd.T, bd])),
+        ('complex-block-diag', BlockDiagonalOperator([d, bd.T @ bd])), ('complex-block-row', BlockRowOperator([d, TransposeOperator(dn)])),
+        ('complex-block-col', BlockColumnOperator({'y': dn, 'x': bd})), ('complex-block-col-T', BlockColumnOperator({'y': dn, 'x': bd}).T),
+    ]
+    return out
 
 
 def close(a: np.ndarray, b: np.ndarray, tol=1e-4) -> bool:
